@@ -287,7 +287,7 @@ impl Prop for C11 {
         ]
     }
     fn expected_counters(&self) -> Vec<&'static str> {
-        vec!["c11.runs", "c11.peer_pauses_longer_than_connection_timeout", "c11.no_key", "c11.nonblocking", "c11.pings", "c11.fragmented_messages", "c11.interleaved_control", "c11.close_inside_fragmented_message", "c11.empty_fragments", "c11.close_ending", "c11.server_drop_ending", "c11.abrupt_ending", "c11.cut_inside_header", "c11.large_payload", "c11.echo", "c11.server_initiated_messages", "c11.nonblocking_then_blocking", "c11.slow_reader"]
+        vec!["c11.runs", "c11.drop_after_receive_error_at_half_close", "c11.peer_pauses_longer_than_connection_timeout", "c11.no_key", "c11.nonblocking", "c11.pings", "c11.fragmented_messages", "c11.interleaved_control", "c11.close_inside_fragmented_message", "c11.empty_fragments", "c11.close_ending", "c11.server_drop_ending", "c11.abrupt_ending", "c11.cut_inside_header", "c11.large_payload", "c11.echo", "c11.server_initiated_messages", "c11.nonblocking_then_blocking", "c11.slow_reader"]
     }
     fn real_vs_stub(&self) -> (Vec<&'static str>, Vec<&'static str>) {
         (vec!["humphrey_ws::{websocket_handler, handshake, WebsocketStream::{recv, recv_nonblocking, send, Drop}, Message::from_stream(_nonblocking), Frame}", "humphrey::App (upgrade dispatch), SHA-1/Base64 of the handshake"], vec!["TCP, threads, Instant (humsim)", "client is a harness reference RFC 6455 implementation"])
@@ -701,6 +701,15 @@ impl Prop for C11 {
         }
         if server_dropped_first && !abrupt && closes == 0 {
             rr.violate("C11/R6", format!("drop-sends-no-close:{}", mode), format!("the handler returned after {} message(s) without a prior close, but no Close frame was written; server wrote {}", scn.drop_after, show_bytes(&wire[..wire.len().min(80)])));
+        }
+        // a client that half-closes (FIN) without a Close frame and keeps reading: receive fails at
+        // the end of the stream, the handler returns, and dropping the stream sends the Close
+        let recv_failed_at_eof = sev.iter().any(|e| matches!(e, SEv::OtherErr(s) if s == "ReadError"));
+        if scn.ending == "fin" && !has_close && !server_dropped_first && recv_failed_at_eof {
+            rr.count("c11.drop_after_receive_error_at_half_close", 1);
+            if closes == 0 {
+                rr.violate("C11/R6", format!("drop-after-receive-error-sends-no-close:{}", mode), format!("the client half-closed without a Close frame and kept reading; receive reported ReadError and the handler returned, but no Close frame was written; server wrote {}", show_bytes(&wire[..wire.len().min(80)])));
+            }
         }
         if closes > 1 {
             rr.violate("C11/R5", "more-than-one-close", format!("{} close frames", closes));
